@@ -112,7 +112,7 @@ func (d *Driver) Materialize(v *Vector) error {
 			_ = c.NodeLabel(n.Name, GroupLabel, n.Group)
 		}
 		if n.Override != "" && n.Override != "none" {
-			_ = c.NodeOverride(n.Name, "ns1", "foo", n.Override)
+			_ = c.NodeOverride(n.Name, "ns1", "foo", n.Override, "")
 		}
 	}
 	// the ExtendedDaemonSet, defaulted as the controller would
